@@ -133,7 +133,31 @@ fn check_inv(rtxn: &heed::RoTxn, db: Database<D>, index: u16) -> Result<(), Stri
 #[test]
 fn verif_replay() {
     let path = std::env::var("VERIF_SCENARIO").expect("VERIF_SCENARIO");
-    let text = std::fs::read_to_string(path).unwrap();
+    let all = std::fs::read_to_string(path).unwrap();
+    // several scenarios may be given, separated by lines "=== <name>"; each runs in a fresh database
+    let mut scenarios: Vec<(String, String)> = vec![];
+    for line in all.lines() {
+        if let Some(name) = line.strip_prefix("=== ") {
+            scenarios.push((name.trim().to_string(), String::new()));
+        } else {
+            if scenarios.is_empty() {
+                scenarios.push(("main".to_string(), String::new()));
+            }
+            let last = scenarios.last_mut().unwrap();
+            last.1.push_str(line);
+            last.1.push('\n');
+        }
+    }
+    for (name, text) in scenarios {
+        println!("SCENARIO {name}");
+        let r = std::panic::catch_unwind(|| run_one(&text));
+        if r.is_err() {
+            println!("RESULT violation: panic while running scenario {name}");
+        }
+    }
+}
+
+fn run_one(text: &str) {
     let dir = tempfile::tempdir().unwrap();
     let env = unsafe { EnvOpenOptions::new().map_size(200 * 1024 * 1024).open(dir.path()) }.unwrap();
     let mut wtxn = env.write_txn().unwrap();
